@@ -14,7 +14,7 @@ double __fp_mul_hook(double a, double b) {
   if (x == 1.0) VERIF_ASSUME(p == 4294967295.0);
   if (n_calls > 0) {
     if (x >= last_x) VERIF_ASSUME(p >= last_p);
-    if (x <= last_x) VERIF_ASSUME(p <= last_p);
+    if (x <= last_x) VERIF_ASSUME(p <= last_p);      /* together: same argument, same product */
   }
   n_calls++; last_x = x; last_p = p;
   return p;
